@@ -380,6 +380,34 @@ func c17(c *Ctx) {
 							c.Res.Violate("C17:result-aliases-buffer:"+name, fmt.Sprintf("%s result changed when the transport buffer was overwritten: %s -> %s", name, before, after), nil, caseNo)
 						}
 					}
+					// round 11: a profile without segments (all three 00:00-00:00) is returned, the application fills in the map it was
+					// given, then reads another such profile: that one is the decoding of its own reply (seeded C17-X: every
+					// profile without segments shares one package-level map)
+					{
+						empty := append([]byte{}, reply...)
+						for off := 24; off < 36; off++ {
+							empty[off] = 0
+						}
+						d.Reset()
+						d.Script = func(adapter.Invocation) ([][]byte, error) { return [][]byte{append([]byte{}, empty...)}, nil }
+						id := uint8(a["ProfileID"].U)
+						c.Res.Eval(1)
+						if v1, err := u.GetTimeProfile(serial, id); err == nil && v1 != nil && v1.Segments != nil {
+							for k := uint8(1); k <= 3; k++ {
+								v1.Segments[k] = types.Segment{Start: types.NewHHmm(8, 30), End: types.NewHHmm(17, 45)}
+							}
+							v1.Segments[7] = types.Segment{Start: types.NewHHmm(1, 2), End: types.NewHHmm(3, 4)}
+							c.Res.Count("returned-profile-without-segments-edited", 1)
+							if v2, err := u.GetTimeProfile(serial, id); err == nil && v2 != nil {
+								for k, seg := range v2.Segments {
+									if k < 1 || k > 3 || seg.Start.String() != "00:00" || seg.End.String() != "00:00" {
+										c.Res.Violate("C17:result-shares-storage:GetTimeProfile", fmt.Sprintf("GetTimeProfile: a profile whose reply carries no segments came back with segment %d = %v-%v after the application had edited the segments of an earlier result", k, seg.Start, seg.End), nil, caseNo)
+										break
+									}
+								}
+							}
+						}
+					}
 				case "GetListener":
 					if ap, iv, err := u.GetListener(serial); err == nil {
 						before := fmt.Sprint(ap, iv)
